@@ -358,6 +358,8 @@ class Interp:
             else:
                 self.regions[a >> SHIFT].kind = 'extern'
                 self.regions[a >> SHIFT].size = max(size, 4096)
+                if name == '__libc_single_threaded':
+                    self.store(a, 1, 1)
             return a
         raise Unsupported('unknown global @' + name)
 
